@@ -11,7 +11,7 @@
 //! other A5=0 ports are then unjudged unless the extender claims them. With the mouse disabled it
 //! must never answer.
 //! Every device is put in a distinguishable state so that the byte read identifies its source; after
-//! every OUT all device states are diffed. Bits 5-7 of a ULA read are not judged (EAR level/unused).
+//! every OUT all device states are diffed. Bits 5 and 7 of a ULA read are not judged; bit 6 (EAR) must keep the value it had before any port was written, because no tape is inserted.
 //! Floating bus (set oracle): outside the picture-fetch windows (with an 8 T guard) an unclaimed port
 //! must read 0xFF; inside, 0xFF or a display/attribute byte of a cell fetched within +-8 T.
 use crate::c17::MATRIX;
@@ -125,6 +125,11 @@ struct Rig {
     p_latch: u16,
     p_aysel: u16,
     p_aydata: u16,
+    /// bit 6 of a ULA read before the harness wrote anything: no tape is inserted, so the EAR
+    /// level – and with it bit 6 – must stay what it is whatever is written to any port
+    ear_bit: u8,
+    /// toggles on every reset: the speaker/MIC bits written along with the reference border
+    flip: u8,
 }
 
 /// first port not claimed by the extender that satisfies `pred`, trying `canon` first
@@ -147,6 +152,7 @@ fn build(c: &Conf) -> Rig {
     cfg.ay = true;
     cfg.sound = false;
     let mut m = Machine::new(cfg);
+    let ear_bit = m.inp(0xFEFE) & 0x40;
     // keyboard rows
     for r in 0..8 {
         for b in 0..5 {
@@ -180,7 +186,7 @@ fn build(c: &Conf) -> Rig {
     let p_latch = alias(c, 0x7FFD, |p| p & 0x8003 == 0x0001);
     let p_aysel = alias(c, 0xFFFD, |p| p & 0xC023 == 0xC021);
     let p_aydata = alias(c, 0xBFFD, |p| p & 0xC003 == 0x8001);
-    let mut rig = Rig { m, c: *c, mouse_buttons, p_ula, p_latch, p_aysel, p_aydata };
+    let mut rig = Rig { m, c: *c, mouse_buttons, p_ula, p_latch, p_aysel, p_aydata, ear_bit, flip: 0 };
     rig.reset_devices();
     rig
 }
@@ -202,7 +208,9 @@ impl Rig {
             m.out(ps, AY_SEL);
         }
         if ula_ok {
-            m.out(pu, BORDER0);
+            // speaker and MIC bits vary from reset to reset; they must never show up in reads
+            self.flip = self.flip.wrapping_add(1);
+            m.out(pu, BORDER0 | (self.flip & 3) << 3);
         }
         if self.c.is128 && latch_ok {
             m.out(pl, 0);
@@ -292,7 +300,7 @@ fn sweep(ctx: &Ctx, c: &Conf, st: &mut St, rng: &mut Rng) {
         let ext_calls = rig.ext_log_len() - before_log;
         let expect: Option<(u8, u8)> = match devs.as_slice() {
             [] => Some((0xFF, 0xFF)),
-            [Dev::Ula] => Some((ula_expect((port >> 8) as u8), 0x1F)),
+            [Dev::Ula] => Some((ula_expect((port >> 8) as u8) | rig.ear_bit, 0x5F)),
             [Dev::AySel] => Some((AY_VAL, 0xFF)),
             [Dev::Kempston] => Some((KEMP_STATE, 0xFF)),
             [Dev::MouseButtons] => Some((rig.mouse_buttons, 0xFF)),
